@@ -24,7 +24,7 @@ def load_rows(repo):
 
 def classify(j, idx, name_ids):
     """Returns a dict row (with 'unsupported' = reason or None)."""
-    r = {"id": idx, "name": j["name"], "name_id": name_ids[j["name"]], "src": j, "unsupported": None}
+    r = {"id": idx, "name": j["name"], "name_id": name_ids[j["name"]], "src": j, "unsupported": None, "repaired": None}
 
     def bad(why):
         r["unsupported"] = why
@@ -95,17 +95,18 @@ def classify(j, idx, name_ids):
         if mp == 0 and 0xD8 <= opc <= 0xDF and not re.fullmatch(r"D[89A-F]", toks0[0] if toks0 else ""):
             return bad("x87 (escape opcode D8..DF)")
     moffs = bool(j["moff"] or any(o["memOff"] for o in j["ops"]))
-    if any(o["memFar"] for o in j["ops"]):
-        return bad("far pointer")
+    # far pointers in memory (m16:16 / m16:32 / m16:64) are ordinary memory operands of 4 / 6 / 10 bytes
     FIXBASE = {"zax": 0, "zcx": 1, "zdx": 2, "zbx": 3, "zsi": 6, "zdi": 7, "rax": 0, "rcx": 1, "rdx": 2, "rbx": 3, "rsi": 6, "rdi": 7}
     if any(o["memSegment"] and o["memRegOnly"] not in FIXBASE for o in j["ops"]):
         return bad("memory operand addressed by a ModRM register (enqcmd, movdir64b, umonitor)")
-    if j["name"] in ("lcall", "ljmp"):
-        return bad("far pointer")
+    if j["name"] in ("lcall", "ljmp") and any(o["imm"] for o in j["ops"]):
+        return bad("far pointer immediate (selector:offset)")
     if any(o["regIndexRel"] for o in j["ops"]):
         return bad("consecutive register operand (k+1)")
     if j["tsib"]:
-        return bad("tsib (AMX tile memory)")
+        # AMX tile memory ("sibmem"): ModRM.rm is always 100 (a SIB byte is always present); translated as an ordinary memory
+        # operand -- that a SIB byte is present is not modelled (llvm-mc rejects the SIB-less encodings)
+        j = dict(j); j["modrm"] = ""; j["mod"] = "!(11)"
     if any(o["mem"] in ("mib",) for o in j["ops"]):
         return bad("mib memory operand")
     # prefixes / sizes
@@ -219,8 +220,22 @@ def classify(j, idx, name_ids):
             letters = "M"
     if j["ri"] and "O" not in letters:
         return bad("opcode+r without a register operand")
+    # rows whose `encoding` field contradicts their own operand list (database defects, named in the evidence): the slots are
+    # REPAIRED from the operand shapes -- the only reading the ISA admits for that operand count -- and the row is marked
+    repaired = None
+    kinds = [ops[k]["kind"] for k in free]
+    if len(letters) != len(free) and enc not in ("NONE", "OP") and kind in (1, 3):
+        if len(free) == 2 and kinds[0] == 0:
+            repaired, letters = letters, "RM"
+        elif len(free) == 2 and kinds[1] == 0:
+            repaired, letters = letters, "MR"
+        elif len(free) == 3 and kinds[0] == 0 and kinds[1] == 0:
+            repaired, letters = letters, "RVM"
+    elif len(letters) == 2 == len(free) and set(letters) == {"R", "M"} and kinds[letters.index("R")] == 1 and kinds[letters.index("M")] == 0:
+        repaired, letters = letters, letters[::-1]       # [RM] written for a store (memory, register) or [MR] for a load
     if len(letters) != len(free):
         return bad("encoding letters %s do not match %d free operands" % (letters, len(free)))
+    r["repaired"] = repaired
     SL = {"R": 1, "M": 2, "V": 3, "S": 4, "O": 5}
     for c, k in zip(letters, free):
         if c not in SL:
@@ -329,7 +344,7 @@ def coq_text(rows, names=None):
     out = []
     out.append("(* GENERATED by tools/c01_db.py from db/isa_x86.json (expanded by the repository's db/index.js). Do not edit.\n"
                "   %d expanded forms, %d supported by the structural decoder (the others are counted in the evidence). *)" % (len(rows), len(sup)))
-    out.append("From Coq Require Import ZArith List Bool.\nFrom Verif Require Import X86.X86Model X86.X86Denote X86.X86DbCheck.\nImport ListNotations.\nLocal Open Scope Z_scope.\n")
+    out.append("From Coq Require Import ZArith List Bool.\nFrom Verif Require Import X86.X86Model X86.X86Denote X86.X86DbCheck X86.X86Unique X86.X86UniqueProofs.\nImport ListNotations.\nLocal Open Scope Z_scope.\n")
     for r in sup:
         ops = "; ".join("mkO %d %d %s %d %d %d %d %s %s %s" % (d["kind"], d["cls"], zz(d["fixed"]), d["slot"], d["msz"], d["immoff"],
                                                              d["immsz"], zz(d["immval"]), zb(d["immsign"] == "signed"), zb(d["implicit"])) for d in r["ops"])
@@ -344,10 +359,11 @@ def coq_text(rows, names=None):
         lo = r["opc"] & ~7 if r["ri"] else r["opc"]
         for o in (range(lo, lo + 8) if r["ri"] else [lo]):
             buckets.setdefault(o, []).append(r["id"])
-    out.append("Definition bucket (opc : Z) : list row :=\n  match opc with")
+    out.append("Definition bucket_raw (opc : Z) : list row :=\n  match opc with")
     for o in sorted(buckets):
         out.append("  | %d => [%s]" % (o, "; ".join("r%d" % i for i in buckets[o])))
     out.append("  | _ => []\n  end.\n")
+    out.append("Definition bucket (opc : Z) : list row := if zin 0 opc 256 then bucket_raw opc else [].\n")
     # row lookup by id: binary search tree keyed on id to keep lookups logarithmic
     ids = [r["id"] for r in sup]
 
@@ -367,6 +383,20 @@ def coq_text(rows, names=None):
     out.append("Lemma db_bucket_sound : forallb (fun o => forallb (fun r => bucket_row_ok o r) (bucket o)) (zrange256) = true.\nProof. vm_compute. reflexivity. Qed.\n")
     out.append("Definition db_count : Z := %d.\nLemma db_count_ok : Z.of_nat (length db_rows) = db_count.\nProof. vm_compute. reflexivity. Qed.\n" % len(sup))
     if names:
+        nid = {n: i for i, n in enumerate(names)}
+        pairs = []
+        for fn in ("C01_db_alias.txt", "C01_db_ambiguous.txt"):
+            pth = os.path.join(vlib.VERIF, "corpus", fn)
+            if os.path.exists(pth):
+                for l in open(pth):
+                    l = l.split("#")[0].split()
+                    if len(l) == 2 and l[0] in nid and l[1] in nid:
+                        pairs.append((nid[l[0]], nid[l[1]]))
+        out.append("(* reviewed mnemonic aliases (corpus/C01_db_alias.txt) and known ambiguities of the database (corpus/C01_db_ambiguous.txt, findings) *)")
+        out.append("Definition db_aliases : list (Z * Z) := [%s].\n" % "; ".join("(%d, %d)" % p for p in pairs))
+        out.append("(* uniqueness: rows of one opcode bucket that can admit the same bytes (X86Unique.may_overlap) name the same mnemonic or a listed pair *)")
+        out.append("Lemma db_unique_raw : forallb (fun o => bucket_unique db_aliases (bucket_raw o)) (zrange 256) = true.\nProof. vm_compute. reflexivity. Qed.\n")
+        out.append("Lemma db_unique : forall o, bucket_unique db_aliases (bucket o) = true.\nProof. exact (guarded_all bucket_raw db_aliases db_unique_raw). Qed.\n")
         out.append(coq_examples(names))
     return "\n".join(out) + "\n"
 
